@@ -124,8 +124,7 @@ theorem payload_out_nil (n : Node) (ref : Ref) (data : Option Payload) : (handle
         · rfl
         · split
           · rfl
-          · simp only
-            split <;> rfl
+          · rfl
 
 
 /-! ### honest PAL decryption -/
